@@ -123,6 +123,8 @@ def _descs(ctx, n):
 
 
 def correspond(ctx, corr, model_ok):
+    from harness import battery
+    battery.run(corr, ['reconnect-producers-wire', 'reconnect-window-requests'])
     n = ctx.scale(240, 2500)
     runs, crashed = E.run_all(_descs(ctx, n), post=after_close)
     corr.oracle_failures.extend(crashed)
@@ -169,6 +171,10 @@ def search(ctx, budget):
 
 
 def replay(obj):
+    from harness import battery as _bat
+    _r = _bat.replay(obj.get('case') if isinstance(obj.get('case'), dict) else obj)
+    if _r is not None:
+        return _r
     case = obj.get('case') or obj
     if 'tcp_case' in case:
         c = tuple(case['tcp_case'])
